@@ -26,6 +26,8 @@ Directives (one per line, leading whitespace ignored):
       //@loop K [bind=ID]     ... before the `{` of the K-th loop (invariant/decreases); bind= names a for-iterator
       //@loopbody K           ... at the start of the K-th loop's body
       //@loopend K            ... at the end of the K-th loop's body
+      //@desugar_closure_patterns   rewrite R11 (closure tuple-pattern parameters bound by a let in the closure body)
+      //@model_adapters       rewrite R12 (`X.iter().map(` / `(a..b).map(` -> model adapters `X.verif_iter_map(` / `(a..b).verif_map(`)
       //@lettype NAME TYPE    the deferred-initialisation `let NAME;` gets the type ascription `let NAME: TYPE;` (Verus needs the
                               type where a loop contract mentions the variable; a wrong TYPE is a compile error = undecided)
       //@before "TEXT" [#k]   ... before the k-th statement-start occurrence of TEXT
@@ -174,6 +176,62 @@ def rw_underscore_closures(text):
     return re.sub(r'\|\s*_\s*\|', f, text), n[0]
 
 
+def rw_closure_patterns(text):
+    """R11: closure with one tuple-pattern parameter `|(a, b)| E` (a call argument) -> `|verif_pN| { let (a, b) = verif_pN; E }`:
+    closure parameters are irrefutable patterns bound exactly like `let` (Rust reference, closure expressions)"""
+    mask = code_mask(text)
+    out, pos, n = [], 0, 0
+    for m in re.finditer(r'\|\s*(\([^|()]*\))\s*\|', text):
+        if not mask[m.start()] or m.start() < pos:
+            continue
+        # extent of the body expression: up to the `,` or `)` that closes the call argument
+        d, j = 0, m.end()
+        while j < len(text):
+            if mask[j]:
+                ch = text[j]
+                if ch in '({[':
+                    d += 1
+                elif ch in ')}]':
+                    if d == 0:
+                        break
+                    d -= 1
+                elif ch == ',' and d == 0:
+                    break
+            j += 1
+        if j >= len(text):
+            continue
+        n += 1
+        body = text[m.end():j]
+        out.append(text[pos:m.start()])
+        out.append('|verif_p%d| { let %s = verif_p%d; %s }' % (n, m.group(1), n, body.strip()))
+        pos = j
+    out.append(text[pos:])
+    return ''.join(out), n
+
+
+def rw_model_adapters(text):
+    """R12: the std adapter calls `X.iter().map(` (X a Vec) and `(a..b).map(` are renamed to the model adapters `X.verif_iter_map(` and
+    `(a..b).verif_map(` of specs/adapters_model.vrs (std's own `Iterator::map` stays in scope for the std iterator types and vstd specifies
+    it only prophetically, so the model methods need their own names)"""
+    mask = code_mask(text)
+    n = [0]
+
+    def f1(m):
+        if not mask[m.start()]:
+            return m.group(0)
+        n[0] += 1
+        return '.verif_iter_map('
+
+    def f2(m):
+        if not mask[m.start()]:
+            return m.group(0)
+        n[0] += 1
+        return m.group(1) + '.verif_map('
+    text = re.sub(r'\.iter\(\)\s*\.map\(', f1, text)
+    text = re.sub(r'(\(\s*[A-Za-z0-9_]+\s*\.\.\s*[A-Za-z0-9_]+\s*\))\.map\(', f2, text)
+    return text, n[0]
+
+
 def rw_underscore_params(sig):
     """R3: parameter pattern `_: T` -> `_pN: T`"""
     n = [0]
@@ -190,6 +248,8 @@ REWRITES_DOC = {
     'R7': 'generic parameter instantiated at the one type the unit models: `T: Index<usize, Output = u64>` of bits::read_int/write_int at Vec<u64>; `P: AsRef<Path>` at the model path type',
     'R10': 'alpha-renaming of the method-level generic parameter of the Serialize methods (T -> W, the name SelectSupport already uses): this Verus matches trait and impl method generics by name',
     'R5': '`for p in E { B }` over a crate-defined iterator -> `let mut verif_it = E; loop { match verif_it.next() { Some(p) => { B } None => break } }`: the reference desugaring of `for` (IntoIterator::into_iter is the identity on iterators); for `E = X.by_ref()` the temporary is elided (`Iterator::by_ref` = `self`, `<&mut I as Iterator>::next` = `(**self).next()`, std source)',
+    'R11': 'closure with one tuple-pattern parameter `|(a, b)| E` -> `|verif_pN| { let (a, b) = verif_pN; E }` (Verus accepts only variables as closure parameters; closure parameters are irrefutable patterns bound exactly like let)',
+    'R12': 'std adapter calls `X.iter().map(` (X: Vec) / `(a..b).map(` renamed to the model adapters `X.verif_iter_map(` / `(a..b).verif_map(` (specs/adapters_model.vrs: verified model iterators that yield f(x) for every x in order with exact length; TRUSTED: core::iter::Map over slice::Iter / Range behaves like them)',
     'R8': 'struct fields widened to pub inside the unit',
     'R1': 'doc comments / #[inline] / derives dropped',
 }
@@ -366,6 +426,16 @@ def weave_fn(src, container, name, nth, opts, subs, mode, sig_only=False):
     text, k = rw_underscore_closures(text)
     if k:
         rewrites['R3'] = rewrites.get('R3', 0) + k
+    if any(kind == 'desugar_closure_patterns' for kind, arg, lines in subs):
+        text, k = rw_closure_patterns(text)
+        if not k:
+            raise Undecided('anchor lost: no closure with a tuple-pattern parameter in %s::%s' % (container, name))
+        rewrites['R11'] = k
+    if any(kind == 'model_adapters' for kind, arg, lines in subs):
+        text, k = rw_model_adapters(text)
+        if not k:
+            raise Undecided('anchor lost: no `.iter().map(` / `(a..b).map(` in %s::%s' % (container, name))
+        rewrites['R12'] = k
     for kind, arg, lines in subs:
         if kind == 'desugar_for':
             text, k = rw_for_iter(text, int(arg.strip() or '1'))
@@ -439,7 +509,7 @@ def weave_fn(src, container, name, nth, opts, subs, mode, sig_only=False):
     # collect sub-directives
     for kind, arg, lines in subs:
         body_text = '\n'.join(lines)
-        if kind in ('inst', 'rename_generic', 'desugar_by_ref', 'desugar_for'):
+        if kind in ('inst', 'rename_generic', 'desugar_by_ref', 'desugar_for', 'desugar_closure_patterns', 'model_adapters'):
             continue
         if kind == 'attr':
             if not sig_only:
